@@ -18,6 +18,13 @@ CLAIMED = {
             "DESIGN.md 4 C04"),
 }
 
+CLAIMED["C08"] = (
+    "at every selected row with a non-null key cumsum/cummin/cummax/cumcount equal the prefix reduction of the group's non-null values "
+    "(running sum null after a null with skip_na=False), with the accumulator dtype the library documents, on both glue paths "
+    "(with/without null keys); solver-decided for all code sequences/values/null placements/masks within N<=4,G<=2 (quick), N<=6(8),G<=3 (thorough)",
+    "NumPy/numba models; exact arithmetic; 64-bit inputs bounded so that no partial sum overflows; unselected/null-key rows are C05/C06",
+    "DESIGN.md 4 C08")
+
 NOT_APPLICABLE = {
     "C11": "labelling/order/shape are decided entirely by pandas Index/MultiIndex/DataFrame operations (C extension semantics); nothing symbolic to quantify over within reach of the encoder (DESIGN.md 5)",
     "C14": "margins and crosstab are reindex/groupby(level)/concat/unstack on pandas objects; not encodable (DESIGN.md 5)",
@@ -25,7 +32,7 @@ NOT_APPLICABLE = {
     "C18": "raise-versus-return is decided by concrete len()/Index.equals comparisons in pandas-level glue; a solver would only enumerate a handful of integers (DESIGN.md 5)",
 }
 
-PENDING = {'C02': 'check not landed yet in this commit (planned, DESIGN.md 4); listed here until its quick command passes on the unchanged tree', 'C03': 'check not landed yet in this commit (planned, DESIGN.md 4); listed here until its quick command passes on the unchanged tree', 'C05': 'check not landed yet in this commit (planned, DESIGN.md 4); listed here until its quick command passes on the unchanged tree', 'C06': 'check not landed yet in this commit (planned, DESIGN.md 4); listed here until its quick command passes on the unchanged tree', 'C07': 'check not landed yet in this commit (planned, DESIGN.md 4); listed here until its quick command passes on the unchanged tree', 'C08': 'check not landed yet in this commit (planned, DESIGN.md 4); listed here until its quick command passes on the unchanged tree', 'C09': 'check not landed yet in this commit (planned, DESIGN.md 4); listed here until its quick command passes on the unchanged tree', 'C10': 'check not landed yet in this commit (planned, DESIGN.md 4); listed here until its quick command passes on the unchanged tree', 'C12': 'check not landed yet in this commit (planned, DESIGN.md 4); listed here until its quick command passes on the unchanged tree', 'C13': 'check not landed yet in this commit (planned, DESIGN.md 4); listed here until its quick command passes on the unchanged tree', 'C15': 'check not landed yet in this commit (planned, DESIGN.md 4); listed here until its quick command passes on the unchanged tree', 'C16': 'check not landed yet in this commit (planned, DESIGN.md 4); listed here until its quick command passes on the unchanged tree', 'C19': 'check not landed yet in this commit (planned, DESIGN.md 4); listed here until its quick command passes on the unchanged tree', 'C20': 'check not landed yet in this commit (planned, DESIGN.md 4); listed here until its quick command passes on the unchanged tree'}
+PENDING = {f"C{n:02d}": "check not landed yet in this commit (planned, DESIGN.md 4); listed here until its quick command passes on the unchanged tree" for n in range(1, 21)}
 
 
 def main():
